@@ -5,10 +5,12 @@ DNSDatagramProtocol.datagramReceived (UDP, with a log observer) and DNSProtocol.
 length-prefixed) -- and the outcome is observed: a return, or EOFError / ValueError (incl. subclasses),
 is fine; any other exception, a logged "Unexpected decoding error" (UDP's catch-all) or an exceeded
 step budget is a violation.  Termination is decided by a per-call budget of executed *lines of dns.py*
-(sys.monitoring LINE events enabled only on dns.py's code objects), never by wall-clock time: the
-budget (20 million lines) is ~7x the most any terminating 4 KiB input can need (each name walk visits
-a label start at most once, <= ~800 names x ~1000 labels x 7 lines); a compression loop without the
-visited-offset check spins forever and hits it.
+(sys.monitoring LINE events enabled only on dns.py's code objects), never by wall-clock time.  For an
+n-octet input the budget is n^2 + 500n + 50000 lines: a terminating decode visits every label start at
+most once per name, so it needs at most ~(n/4 labels) x (3n/32 names) x 14 lines = 0.33 n^2 plus a
+linear term; the budget is 3x that.  (It must scale with n rather than be one large constant because
+Name.decode re-copies the accumulated name on every label: a spinning decode gets quadratically slower.)
+A compression loop without the visited-offset check spins forever and hits the budget.
 
 Parts: (A, deciding, deterministic for a VERIF_SEED) a seeded structure-aware mutator over a corpus of
 valid encodings from the C32 generator plus hand-made hostile packets (pointer self/mutual/long
@@ -37,16 +39,20 @@ RULE = ("corpus = valid encodings of random C32 specs (every record type) + host
         "edits located with the reference reader, pointer insertion and retargeting incl. cycles, splice, truncate, "
         "duplicate, insert random bytes), length <= 4096.  Distinct = the mutated bytes; non-trivial = not a byte-for-"
         "byte valid corpus entry.  Plus atheris executions (counted separately).")
-ASSUMPTIONS = ["termination is decided by a budget of 2*10^7 executed lines of dns.py per call (inputs <= 4096 octets)",
+ASSUMPTIONS = ["termination is decided by a budget of n^2+500n+50000 executed lines of dns.py per call on an n-octet input (n <= 4096)",
                "atheris part is additional evidence; the deciding part is the seeded mutator"]
 SHARDS = {"quick": 4, "thorough": 16}
 FLOORS = {"decode_calls": 100000, "outcome_returned": 10000, "outcome_EOFError": 5000, "outcome_ValueError": 500,
-          "udp_datagrams": 25000, "tcp_messages": 25000, "inputs_with_pointer_cycle": 1000, "mutated_inputs": 25000}
+          "udp_datagrams": 25000, "tcp_messages": 25000, "inputs_with_pointer_cycle": 1000, "mutated_inputs": 25000,
+          "atheris_or_noted": 1}
 WATCHDOG_S = {"quick": 900, "thorough": 3600}
 READY = True
 
-BUDGET = 20_000_000
 MAXLEN = 4096
+
+
+def budget_for(n):
+    return n * n + 500 * n + 50000
 
 
 class StepBudgetExceeded(BaseException):
@@ -60,7 +66,7 @@ class LineBudget:
         self.mon = sys.monitoring
         self.tool = None
         self.n = 0
-        self.limit = BUDGET
+        self.limit = budget_for(MAXLEN)
         self.exceeded = False
         self.lines = set()
         self.file = module.__file__
@@ -122,9 +128,10 @@ class LineBudget:
         self.mon.free_tool_id(self.tool)
         return False
 
-    def start(self):
+    def start(self, input_len=MAXLEN):
         self.n = 0
         self.exceeded = False
+        self.limit = budget_for(input_len)
 
 
 # ---- corpus ---------------------------------------------------------------------------------------------------
@@ -349,15 +356,17 @@ class Monitor:
 
     def _where(self, tb):
         fn = "?"
-        for fs in traceback.extract_tb(tb):
-            if fs.filename == self.budget.file:
-                fn = fs.name
+        while tb is not None:
+            code = tb.tb_frame.f_code
+            if code.co_filename == self.budget.file:
+                fn = getattr(code, "co_qualname", code.co_name)
+            tb = tb.tb_next
         return fn
 
     def call(self, name, fn, data, origin):
         """Run one entry point under the line budget; judge the outcome."""
         ctx, b = self.ctx, self.budget
-        b.start()
+        b.start(len(data))
         ctx.count("decode_calls")
         outcome = "returned"
         try:
@@ -377,8 +386,9 @@ class Monitor:
         ctx.maxi("dns_lines_in_one_call", b.n)
         if b.exceeded:
             self.nonterm += 1
-            ctx.violation("decode-does-not-terminate", "%s executed more than %d lines of dns.py on a %d-octet input (compression loop?)" % (name, BUDGET, len(data)),
-                          {"entry": name, "input_hex": data.hex(), "input_len": len(data), "origin": origin, "pointer_cycle_per_reference_reader": has_cycle(data)})
+            ctx.violation("decode-does-not-terminate", "%s executed more than n^2+500n+50000 lines of dns.py on an n-octet input (compression loop?)" % name,
+                          {"entry": name, "input_hex": data.hex(), "input_len": len(data), "line_budget": b.limit, "origin": origin,
+                           "pointer_cycle_per_reference_reader": has_cycle(data)})
             outcome = "budget"
         ctx.count("outcome_" + outcome.split(":")[0])
         ctx.seen("outcomes", name + ":" + outcome)
@@ -399,8 +409,8 @@ class Monitor:
             self.ctx.violation("udp-datagramReceived-raises", "DNSDatagramProtocol.datagramReceived let %s escape" % o3,
                                {"input_hex": data.hex(), "origin": origin, "outcome": o3})
         for ev in self.events:
-            f = ev.get("log_failure")
-            tname = f.type.__name__ if f is not None and f.type else "?"
+            f = ev.get("log_failure") or ev.get("failure")
+            tname = f.type.__name__ if f is not None and getattr(f, "type", None) else "?"
             if tname == "StepBudgetExceeded":
                 continue
             self.ctx.violation("udp-unexpected-decoding-error-%s" % tname, "datagramReceived logged a failure (%s): its catch-all was needed" % tname,
@@ -421,6 +431,13 @@ class Monitor:
 
 DRIVER = r'''
 import sys, atheris
+# Instrument dns.py only: import it once so that all its dependencies are loaded uninstrumented
+# (atheris would otherwise instrument every twisted module imported inside the block, ~40 s), then
+# re-import just that module under instrumentation.
+import twisted.names.dns
+del sys.modules["twisted.names.dns"]
+if hasattr(twisted.names, "dns"):
+    del twisted.names.dns
 with atheris.instrument_imports(include=["twisted.names.dns"]):
     from twisted.names import dns
 sys.path.insert(0, %(home)r)
@@ -429,7 +446,7 @@ lb = c33.LineBudget(dns)
 lb.__enter__()
 def TestOneInput(data):
     for cls in (dns.Message, dns._EDNSMessage):
-        lb.start()
+        lb.start(len(data))
         try:
             cls().fromStr(data)
         except (EOFError, ValueError):
@@ -443,6 +460,7 @@ def run_atheris(ctx, mon, corpus, runs):
     probe = subprocess.run([sys.executable, "-c", "import atheris"], capture_output=True, timeout=120)
     if probe.returncode != 0:
         ctx.count("atheris_unavailable")
+        ctx.count("atheris_or_noted")
         ctx.seen("atheris", "not importable: " + probe.stderr.decode("utf-8", "replace")[-200:])
         return
     tmp = tempfile.mkdtemp(prefix="vf_c33_")
@@ -477,6 +495,7 @@ def run_atheris(ctx, mon, corpus, runs):
                         stats[a[:-1]] = b
         execs = int(stats.get("number_of_executed_units", "0") or 0)
         ctx.count("atheris_executions", execs)
+        ctx.count("atheris_or_noted")
         ctx.count("atheris_runs_requested", runs)
         ctx.maxi("atheris_edge_coverage", int(stats.get("cov", "0") or 0))
         ctx.maxi("atheris_features", int(stats.get("ft", "0") or 0))
@@ -484,12 +503,12 @@ def run_atheris(ctx, mon, corpus, runs):
         crashes = sorted(os.listdir(adir))
         if p.returncode != 0 or crashes:
             ctx.count("atheris_crashes", max(1, len(crashes)))
-            before = len(ctx.violations)
+            before = sum(v["count"] for v in ctx.violations.values())
             for name in crashes[:5]:
                 with open(os.path.join(adir, name), "rb") as f:
                     data = f.read()
                 mon.check(data, origin="atheris:" + name)
-            if len(ctx.violations) == before:
+            if sum(v["count"] for v in ctx.violations.values()) == before:
                 ctx.violation("atheris-crash-not-reproduced-by-monitor", "atheris reported a crash that monitor A's oracle does not reproduce",
                               {"returncode": p.returncode, "artifacts": crashes, "stderr_tail": err[-1500:]})
         elif execs < runs // 2:
@@ -513,13 +532,13 @@ def run(ctx):
     try:
         with mon.budget:
             for k, c in enumerate(corpus):
-                if ctx.owns(k):
+                if ctx.owns(k) and mon.nonterm < 3:
                     ctx.evaluated()
                     ctx.distinct(c)
                     if has_cycle(c):
                         ctx.count("inputs_with_pointer_cycle")
                     mon.check(c, origin="corpus")
-            for i in ctx.cases(60000, 3000000):
+            for i in ctx.cases(40000, 3000000):
                 if mon.nonterm >= 3:
                     ctx.count("stopped_after_nontermination")
                     break
@@ -541,8 +560,11 @@ def run(ctx):
             globalLogPublisher.removeObserver(mon.observer)
         except ValueError:
             pass
-    if mon.nonterm == 0:
-        run_atheris(ctx, mon_for_replay(ctx, dns, mon), corpus, ctx.size(150000, 5000000) // ctx.nshards)
+    if mon.nonterm:
+        ctx.count("atheris_or_noted")  # skipped: part A already found a non-terminating input
+        ctx.count("atheris_skipped_after_nontermination")
+    else:
+        run_atheris(ctx, mon_for_replay(ctx, dns, mon), corpus, ctx.size(100000, 5000000) // ctx.nshards)
 
 
 def mon_for_replay(ctx, dns, mon):
